@@ -22,7 +22,7 @@ def programs(draw, tier):
     helpers = []
     # ---- payload of the subject task
     kind = draw(st.sampled_from(['sleeps', 'sleeps', 'lock', 'queue', 'borrow', 'scope', 'instant',
-                                 'mixed', 'cleanup', 'cleanup', 'nested_borrow', 'until_exit']))
+                                 'mixed', 'cleanup', 'cleanup', 'nested_borrow', 'until_exit', 'selfcancel']))
     pay = []
     n = draw(st.integers(0, 4))
     for _ in range(n):
@@ -39,6 +39,11 @@ def programs(draw, tier):
         helpers.append({'name': 'h_res', 'steps': [{'op': 'borrow', 'r': 'R', 'amounts': {'a': 2}, 'body': [
             {'op': 'sleep', 'd': draw(st.sampled_from([0.5, 1, 2]))}]}]})
         pay.append({'op': 'borrow', 'r': 'R', 'amounts': {'a': draw(st.integers(0, 2))}, 'body': [sleep()]})
+    if kind == 'selfcancel':
+        # the task cancels itself while it is running (from its own call stack): the cancellation is raised at its next
+        # suspension point, in that time step
+        pay.append({'op': 'cancel', 'ref': 's0', 'token': [444]})
+        pay += [{'op': 'sleep', 'd': draw(st.sampled_from([0, 1, 2]))}, sleep()]
     if kind == 'cleanup':
         pay.append({'op': 'cleanup', 'body': [sleep(), sleep()],
                     'final': [{'op': 'sleep', 'd': draw(st.sampled_from([0, 1, 2, 4]))}, sleep()]})
